@@ -412,7 +412,7 @@ def check(pid, tier, seed):
     if (mism or proof_broken or errors or badc or rc != 0) and not spec:
         # search phase: look for a concrete failing input with the deeper generators
         searched = True
-        for k in range(1, int(cfg.get("search_rounds", 2)) + 1):
+        for k in range(1, int(cfg.get("search_rounds", 1)) + 1):
             rc2, cases2, meta2, verdicts2, errors2 = run_and_judge("search", seed + 1000 * k)
             spec2, _, _ = classify(cases2, verdicts2)
             if spec2:
